@@ -96,6 +96,8 @@ def run(tier, seed, replay):
         print(json.dumps(r, indent=1)[:1500])
         return 1 if r.get("violations") else 0
     chk = Check("C12", tier, seed)
+    from .frames_common import file_source_obligations
+    file_source_obligations(chk)
     thorough = tier == "thorough"
     rnd = random.Random(seed)
     # 1. peek is the respelling map of the C standard (for every source); 4. splices between tokens
